@@ -26,7 +26,7 @@ FLOORS = {'SCALE': 3, 'CROP': 3, 'REPEAT': 3, 'STEREO': 3, 'WAV': 1}
 
 
 def E(t):
-  return ast.parse(t, mode='eval').body
+  return U.E(t)
 
 
 def run(ctx):
@@ -46,6 +46,18 @@ def run(ctx):
     m = r2.value.func.value
     s2 = norm_text(m.right) if norm_text(m.left) == f2i.params()[0] else norm_text(m.left)
   ctx.ob('SCALE/to-int', f2i, r2, ok2, 'int16 = (float * scale).astype(int16)' if ok2 else 'float -> int16 is not (y * scale).astype(np.int16)')
+  # the value that is scaled is the caller's array itself: any other rebinding (clipping, rounding, offsetting) changes some of the 65536 values
+  for fi in (i2f, f2i):
+    prm = fi.params()[0]
+    reb = [st for st in U.walk_stmts(fi.node) for (tgt, _v, _o) in U.store_targets(st) if isinstance(tgt, ast.Name) and tgt.id == prm and
+           not (isinstance(st, ast.Assign) and isinstance(st.value, ast.Call) and dotted(st.value.func) in ('np.asarray', 'np.asanyarray', 'numpy.asarray') and
+                len(st.value.args) == 1 and norm_text(st.value.args[0]) == prm)]
+    ret = fi.node.body[-1]
+    uses = isinstance(ret, ast.Return) and any(isinstance(n, ast.Name) and n.id == prm for n in ast.walk(ret))
+    ok = not reb and uses
+    ctx.ob('SCALE/operand-is-input', fi, reb[0] if reb else ret, ok, 'the samples that are scaled are the input array, unmodified' if ok else
+           '%s %s before scaling: some sample values no longer round-trip' % (fi.name, 'rebinds its input (%s)' % norm_text(reb[0]) if reb else 'does not scale its input'),
+           construct='%s scales its parameter as given' % fi.name)
   ok = s1 is not None and s1 == s2 and s1 == 'np.iinfo(np.int16).max'
   ctx.ob('SCALE/same-constant', i2f, r1, ok, 'both directions use np.iinfo(np.int16).max' if ok else
          'the two PCM conversions scale by different expressions (%s vs %s): the round trip is not the identity' % (s1, s2), construct='one PCM scale both ways')
@@ -127,6 +139,8 @@ def run(ctx):
 
 
 MUTANTS = [
+    Mutant('seed C20_a: input clipped to [-1, 1] before scaling (-32768 no longer round-trips)', F, "  return (y * np.iinfo(np.int16).max).astype(np.int16)", "  y = np.clip(y, -1.0, 1.0)\n  return (y * np.iinfo(np.int16).max).astype(np.int16)", rule='SCALE/operand-is-input'),
+    Mutant('input passed through np.asarray first (harmless)', F, "  return (y * np.iinfo(np.int16).max).astype(np.int16)", "  y = np.asarray(y)\n  return (y * np.iinfo(np.int16).max).astype(np.int16)", expect='silent'),
     Mutant('divide by 32768 one way only', F, "  return y.astype(np.float32) / np.iinfo(np.int16).max", "  return y.astype(np.float32) / 32768.0", rule='SCALE/same-constant'),
     Mutant('multiply by another scale', F, "  return (y * np.iinfo(np.int16).max).astype(np.int16)", "  return (y * (np.iinfo(np.int16).max + 1)).astype(np.int16)", rule='SCALE/'),
     Mutant('int16 guard dropped', F, "  if y.dtype != np.int16:\n    raise ValueError('input samples not int16')\n", "", rule='SCALE/dtype-guard'),
